@@ -1,6 +1,9 @@
 package main
 
-import "go/ast"
+import (
+	"go/ast"
+	"strings"
+)
 
 func init() {
 	factFuncs = append(factFuncs, func(ex *factExtractor) {
@@ -66,5 +69,98 @@ func init() {
 			all = false
 		}
 		ex.setBool("c12SubMatchersNormalize", all, true, "full/domain/keyword Add and every Match normalise first; RegexMatcher.Add keeps the expression as written")
+
+		// ---- data_provider/domain_set: how a set is assembled from its own rules and other sets
+		const srel = "plugin/data_provider/domain_set/domain_set.go"
+		const grel = "plugin/data_provider/domain_set/group.go"
+		nds := ex.fn(srel, "", "NewDomainSet")
+		gdm := ex.fn(srel, "DomainSet", "GetDomainMatcher")
+		// (a) the group slice of a set belongs to the set: it starts as the zero value of a fresh DomainSet,
+		// every write to it in the package appends single members to the set's own slice
+		// (`ds.mg = append(ds.mg, m)`, never a slice obtained from another set, never a spread `g...`),
+		// and GetDomainMatcher only hands it out
+		owned := false
+		if nds != nil && gdm != nil {
+			owned = ex.str(gdm.Body) == "{ return MatcherGroup(d.mg) }"
+			ss := stmtStrings(ex, nds.Body)
+			owned = owned && contains(ss, "ds := &DomainSet{}") && contains(ss, "return ds, nil")
+			writes := 0
+			for _, rel := range []string{srel, grel} {
+				f := ex.file(rel)
+				if f == nil {
+					owned = false
+					continue
+				}
+				ast.Inspect(f, func(n ast.Node) bool {
+					switch st := n.(type) {
+					case *ast.AssignStmt:
+						for _, l := range st.Lhs {
+							if ls := ex.str(l); ls == "mg" || strings.HasSuffix(ls, ".mg") || strings.Contains(ls, ".mg[") {
+								writes++
+								if ex.str(st) != "ds.mg = append(ds.mg, m)" {
+									owned = false
+								}
+							}
+						}
+					case *ast.CompositeLit:
+						if t := ex.str(st.Type); (t == "DomainSet" || t == "MatcherGroup") && len(st.Elts) > 0 {
+							owned = false
+						}
+					case *ast.UnaryExpr:
+						if st.Op.String() == "&" && strings.HasSuffix(ex.str(st.X), ".mg") {
+							owned = false
+						}
+					}
+					return true
+				})
+			}
+			owned = owned && writes == 2
+		}
+		ex.setBool("c12SetGroupOwned", owned, nds != nil && gdm != nil, "domain_set: the only writes to a set's group are `ds.mg = append(ds.mg, m)` (one member at a time, onto the new set's own slice, which starts nil); GetDomainMatcher returns MatcherGroup(d.mg)")
+		// (b) the shape of NewDomainSet: own MixMatcher (default type domain) kept iff Len() > 0, then one
+		// member per tag of args.Sets, in order, a missing provider is an error
+		shape := false
+		if nds != nil && len(nds.Body.List) == 6 {
+			l := nds.Body.List
+			shape = ex.str(l[0]) == "ds := &DomainSet{}" &&
+				ex.str(l[1]) == "m := domain.NewDomainMixMatcher()" &&
+				ex.str(l[2]) == "if err := LoadExpsAndFiles(args.Exps, args.Files, m); err != nil { return nil, err }" &&
+				ex.str(l[3]) == "if m.Len() > 0 { ds.mg = append(ds.mg, m) }" &&
+				ex.str(l[5]) == "return ds, nil"
+			if fr, isR := l[4].(*ast.RangeStmt); shape && isR && ex.str(fr.X) == "args.Sets" && ex.str(fr.Value) == "tag" && len(fr.Body.List) == 4 {
+				b := fr.Body.List
+				shape = ex.str(b[0]) == "provider, _ := bp.M().GetPlugin(tag).(data_provider.DomainMatcherProvider)" &&
+					strings.HasPrefix(ex.str(b[1]), "if provider == nil { return nil, ") &&
+					ex.str(b[2]) == "m := provider.GetDomainMatcher()" &&
+					ex.str(b[3]) == "ds.mg = append(ds.mg, m)"
+			} else {
+				shape = false
+			}
+		}
+		ndm := ex.fn("pkg/matcher/domain/load_helper.go", "", "NewDomainMixMatcher")
+		shape = shape && ndm != nil && contains(stmtStrings(ex, ndm.Body), "mixMatcher.SetDefaultMatcher(MatcherDomain)")
+		ex.setBool("c12SetMembersOwnThenSets", shape, nds != nil, "NewDomainSet: own MixMatcher (default type domain) is a member iff m.Len() > 0, then GetDomainMatcher() of every tag in args.Sets, in order; unknown tag = error")
+		// (c) MatcherGroup.Match: some member matches
+		gm := ex.fn(grel, "MatcherGroup", "Match")
+		ex.setBool("c12GroupMatchIsAny", gm != nil && ex.str(gm.Body) == "{ for _, m := range mg { if _, ok := m.Match(s); ok { return struct{}{}, true } } return struct{}{}, false }", gm != nil, "MatcherGroup.Match: true iff some member's Match says so")
+		// (d) Len: labelNode.len = valued nodes below the node; SubDomainMatcher.Len adds one for a value at the
+		// root (the rule for the root domain); MixMatcher.Len sums it with the three map sizes
+		ln := ex.fn(urel, "labelNode", "len")
+		ml := ex.fn(rel, "MixMatcher", "Len")
+		sl := ex.fn(rel, "SubDomainMatcher", "Len")
+		lenOk := ln != nil && ml != nil && sl != nil &&
+			ex.str(ln.Body) == "{ l := 0 for _, node := range n.children { l += node.len() if node.hasValue() { l++ } } return l }" &&
+			ex.str(sl.Body) == "{ l := m.root.len() if m.root.hasValue() { l++ } return l }" &&
+			contains(stmtStrings(ex, ml.Body), "sum += matcher.Len()")
+		if lenOk {
+			lenOk = false
+			ast.Inspect(ml.Body, func(n ast.Node) bool {
+				if rs, isR := n.(*ast.RangeStmt); isR && ex.str(rs.X) == "[...]interface{ Len() int }{m.full, m.domain, m.regex, m.keyword}" {
+					lenOk = true
+				}
+				return true
+			})
+		}
+		ex.setBool("c12LenCountsValuedNodesAndRoot", lenOk, ln != nil && ml != nil && sl != nil, "MixMatcher.Len = full + domain + regex + keyword; SubDomainMatcher.Len = labelNode.len of the root (valued nodes below it) + 1 if the root itself has a value")
 	})
 }
